@@ -1,6 +1,7 @@
 package main
 
 import (
+	"crypto/tls"
 	"crypto"
 	"crypto/ecdsa"
 	"crypto/elliptic"
@@ -109,7 +110,7 @@ func getChain(kind string) (*keyChain, error) {
 }
 
 // signWith configures S/MIME signing: kind is "rsa" or "ecdsa", with "+ic" to include the intermediate
-func signWith(m *mail.Msg, kind string) error {
+func signWith(m *mail.Msg, kind string, viaTLSCertificate ...int) error {
 	base := strings.TrimSuffix(kind, "+ic")
 	c, err := getChain(base)
 	if err != nil || c == nil {
@@ -118,6 +119,17 @@ func signWith(m *mail.Msg, kind string) error {
 	var ic *x509.Certificate
 	if strings.HasSuffix(kind, "+ic") {
 		ic = c.intermediate
+	}
+	if len(viaTLSCertificate) > 0 && viaTLSCertificate[0] > 0 {
+		// the tls.Certificate entry point: chain of raw certificates, Leaf parsed or not
+		tc := &tls.Certificate{Certificate: [][]byte{c.leaf.Raw}, PrivateKey: c.key}
+		if ic != nil {
+			tc.Certificate = append(tc.Certificate, ic.Raw)
+		}
+		if viaTLSCertificate[0] == 2 {
+			tc.Leaf = c.leaf
+		}
+		return m.SignWithTLSCertificate(tc)
 	}
 	return m.SignWithKeypair(c.key, c.leaf, ic)
 }
